@@ -170,6 +170,21 @@ static std::string handle_ring(const std::vector<std::string> &t)
           std::to_string(cb.production_count()) + ",cons:" + std::to_string(cb.consumption_count()) + ",peek:" + show_ids(seen) +
           ",n:" + std::to_string(pk.size()) + ",pe:" + (pk.empty() ? "1" : "0") + ",all:" + (all ? "1" : "0") + ",stop:" +
           std::to_string(calls) + "/" + (whole ? "1" : "0");
+      // AtomicUniquePtr on its own: the owning constructor, Swap, SwapIfNull on a non-null slot, destruction of the owned element
+      bool aup   = true;
+      int before = Elem::live;
+      {
+        AtomicUniquePtr<Elem> a(std::unique_ptr<Elem>(new Elem(-7)));
+        if (a.IsNull() || a->id != -7 || Elem::live != before + 1) aup = false;
+        std::unique_ptr<Elem> o(new Elem(-8));
+        a.Swap(o);
+        if (!o || o->id != -7 || a.Get() == nullptr || a->id != -8) aup = false;
+        if (a.SwapIfNull(o) || !o) aup = false;  // occupied: refused, the caller keeps its element
+        a.Reset();
+        if (!a.IsNull() || !a.SwapIfNull(o) || o) aup = false;  // empty: taken
+      }
+      if (Elem::live != before) aup = false;
+      q += std::string(",aup:") + (aup ? "1" : "0");
     }
     if (end_mode == 'k' || end_mode == 'n')
     {
